@@ -44,11 +44,11 @@ SPEC = dict(
     trusted_base=[
         "hand-written model coq/models/AssertCodec.v of asserts/headers.go and of Decode/Decoder in asserts/asserts.go, tied by the differential run (harness/overlay/asserts/zz_verif_c20_test.go)",
         "headerNameValidity (a regexp) and unicode/utf8.Valid are hand models (valid_name, utf8_valid) validated by the differential run",
-        "bufio.Reader / io.MultiReader under Decoder.peek are modelled as: fewer than size bytes left in the stream -> all of them plus a sticky EOF; otherwise exactly size bytes, however the underlying reader splits its data (validated by the chunked-reader cases, not proved)",
+        "bufio.Reader / io.MultiReader under Decoder.peek are modelled as: fewer than size bytes left in the stream -> all of them plus a sticky EOF; otherwise exactly size bytes, however the underlying reader splits its data: proved for a model of bufio.Reader.Peek (peek_fill: Read is called until n bytes are buffered or the reader ends); assumed about bufio: buffer large enough / re-created with the buffered bytes carried over on ErrBufferFull, no endless empty reads, EOF delivered with data is deferred until the data is used; the lifting from Peek to the whole decoder is validated by the chunked-reader cases",
         "assemble's per-type checks, signing and RSA are not modelled: the model stops where Decode calls assemble; an accepted assertion must carry the model's headers/body/signature, a rejection by assemble is allowed",
     ],
     assumptions=[
-        "PARTIAL: proved for all inputs on the model: header text round trip for every normalised tree of any depth (C20_roundtrip, C20_roundtrip_bytes), line split/join inverses, totality of parseHeaders (no out-of-range index, termination within 2*lines+1 steps: C20_no_panic), readUntil/Decode size bounds (C20_read_until_bound, C20_limits), that the overlap kept between two rounds of readUntil loses no delimiter (C20_read_until_overlap: the Go loop = whole-buffer search for every input), and that Decoder.Decode never panics on any stream (C20_stream_never_panics, C20_stream_loop_never_panics; the negative body-length panic this check found is repaired in /repo commit 94ffaa1). NOT proved, only monitored on the implementation: the content/signature/body splitting of a whole encoded assertion, identical revision/format (derived from headers by assemble), absence of hangs of the real decoder (20 s bound per call), independence of the stream decoder's result from the reader's chunking (monitored with chopped readers).",
+        "PARTIAL: proved for all inputs on the model: header text round trip for every normalised tree of any depth (C20_roundtrip, C20_roundtrip_bytes), line split/join inverses, totality of parseHeaders (no out-of-range index, termination within 2*lines+1 steps: C20_no_panic), readUntil/Decode size bounds (C20_read_until_bound, C20_limits), that the overlap kept between two rounds of readUntil loses no delimiter (C20_read_until_overlap: the Go loop = whole-buffer search for every input), and that Decoder.Decode never panics on any stream (C20_stream_never_panics, C20_stream_loop_never_panics; the negative body-length panic this check found is repaired in /repo commit 94ffaa1). the byte-level round trip of a whole serialized assertion decode_parts (encode_assertion h body sig) = Ok (h, body, sig) for every normalised h, arbitrary body and any signature text without blank line / leading newline (C20_assertion_roundtrip), and that a bufio-style Peek returns the same bytes for every chunking of the reader (C20_peek_chunking_independent, C20_peek_is_flat_peek). NOT proved, only monitored on the implementation: the stream version of the round trip (Decoder.Decode over the concatenation of k encodings returns exactly those k assertions then EOF; exercised by the chunk cases with delimiters on every read boundary), identical revision/format (derived from headers by assemble), absence of hangs of the real decoder (20 s bound per call), independence of the stream decoder's result from the reader's chunking (monitored with chopped readers).",
         "normalised header tree = strings, non-empty lists, non-empty maps with valid distinct keys (what parseHeaders can produce); assembleAndSign also accepts trees outside this form, whose text form drops empty lists/maps or cannot be parsed (C20_roundtrip_any_tree_refuted) - treated as outside the property's `valid assertion`",
         "Go maps are represented by their key-sorted entry list",
         "the C20_limits bound for the header text is the readUntil bound max(initial buffer, limit); with the production constants (4096, 128 KiB, 2 MiB, 128 KiB) that is the limit itself",
